@@ -55,7 +55,8 @@ type c08Event struct {
 	digit   int   // counter = 4^digit
 	meta    *format.MetricMetaValue
 	ts      uint32 // as sent (0 = not set)
-	kind    int    // 0 counter 1 value 2 unique
+	kind    int    // through Agent.Map+ApplyMetric: 0 counter 1 value 2 unique; direct helpers (built-in metric path): 3 AddCounter 4 AddValueCounter 5 MergeItemValue 6 AddCounterS
+	nowTs   bool   // ts == 0 reaches the shard as 0 ("now" = the shard's current time) instead of being replaced by the receive time
 	a, b    string
 	host    string
 	top     string
@@ -84,6 +85,7 @@ type c08Agent struct {
 	buckets   int
 	lastTime  []uint32
 	corrupt   []string
+	statusOK  map[[2]int]float64 // (shard, metric id) -> sum of delivered "ingestion status ok" counters
 }
 
 func c08Metas(nShards int, t0 uint32, rnd interface{ IntN(int) int }) []*format.MetricMetaValue {
@@ -102,9 +104,16 @@ func c08Metas(nShards int, t0 uint32, rnd interface{ IntN(int) int }) []*format.
 		default:
 			m.ShardStrategy = format.ShardByTagsHash
 		}
-		if i == 7 || i == 5 { // secondary shard that starts in the middle of the history
+		if i == 7 || i == 5 || i == 1 { // secondary shard: started long ago / starts in the middle of the history / not yet
 			m.ShardFixedKey2 = uint32(1 + rnd.IntN(nShards))
-			m.ShardFixedKey2Timestamp = t0 + uint32(rnd.IntN(40)) - 10
+			switch rnd.IntN(4) {
+			case 0:
+				m.ShardFixedKey2Timestamp = t0 - 100000
+			case 1:
+				m.ShardFixedKey2Timestamp = t0 + 1000000
+			default:
+				m.ShardFixedKey2Timestamp = t0 + uint32(rnd.IntN(40)) - 10
+			}
 		}
 		if i == 9 {
 			m.Kind = format.MetricKindValuePercentiles
@@ -155,7 +164,7 @@ func c08NewAgent(nShards int, t0 uint32, seed uint64, cache map[string]int32) *c
 		a.Shards = append(a.Shards, sh)
 	}
 	a.initBuiltInMetrics()
-	return &c08Agent{agent: a, delivered: map[[2]int][]c08Delivery{}, lastTime: make([]uint32, nShards)}
+	return &c08Agent{agent: a, delivered: map[[2]int][]c08Delivery{}, lastTime: make([]uint32, nShards), statusOK: map[[2]int]float64{}}
 }
 
 type c08History struct {
@@ -237,7 +246,7 @@ func (h *c08History) stallCycles() {
 				meta = lowRes[rnd.IntN(len(lowRes))]
 			}
 			res := uint32(meta.EffectiveResolution)
-			ev := &c08Event{idx: len(h.events), meta: meta, kind: rnd.IntN(3), clockMs: h.clock.UnixMilli()}
+			ev := &c08Event{idx: len(h.events), meta: meta, kind: c08Kind(rnd), nowTs: rnd.IntN(2) == 0, clockMs: h.clock.UnixMilli()}
 			switch p := rnd.IntN(20); {
 			case p < 7:
 				ev.ts = now + 1 + uint32(rnd.IntN(10))
@@ -245,8 +254,10 @@ func (h *c08History) stallCycles() {
 				ev.ts = (now+uint32(rnd.IntN(8)))/res*res + uint32(rnd.IntN(2))*res
 			case p < 14:
 				ev.ts = now - uint32(rnd.IntN(200))
-			case p < 17:
+			case p < 16:
 				ev.ts = now
+			case p < 18:
+				ev.ts = 0
 			default:
 				ev.ts = now - uint32(rnd.IntN(4))
 			}
@@ -292,6 +303,11 @@ func (h *c08History) drain(ai int, shard int) bool {
 	case b := <-sh.BucketsToPreprocess:
 		ag.buckets++
 		for _, item := range b.MultiItems {
+			if item.Key.Metric == format.BuiltinMetricIDIngestionStatus && item.Key.Tags[2] == format.TagValueIDSrcIngestionStatusOKCached {
+				// one "ok" status event (timestamp 0 = now) accompanies every event applied through ApplyMetric, on each of its shards
+				ag.statusOK[[2]int{shard, int(item.Key.Tags[1])}] += item.Tail.Value.Count()
+				continue
+			}
 			if item.Key.Metric < 100 || item.Key.Metric >= 100+int32(len(h.metas)) {
 				continue // self-metrics of the agent
 			}
@@ -338,6 +354,46 @@ func (h *c08History) states(ai int) []c08ShardState {
 func (h *c08History) send(ev *c08Event) {
 	for ai := 0; ai < 2; ai++ {
 		ag := h.ag[ai].agent
+		if ev.kind >= 3 { // the helpers built-in metrics and the aggregator use: no mapping, timestamp 0 means "now"
+			tags := []int32{0, ev.group}
+			cnt := math.Pow(4, float64(ev.digit))
+			kc := data_model.Key{Timestamp: ev.ts, Metric: ev.meta.MetricID}
+			copy(kc.Tags[:], tags)
+			var stags []string
+			if ev.kind == 6 {
+				stags = []string{2: ev.a, 3: ev.b}
+				for i, st := range stags { // what Agent.fillKey does
+					if st != "" {
+						if v, ok := ag.mappingsCache.GetValue(ev.ts, st); ok {
+							kc.Tags[i] = v
+						} else {
+							kc.STags[i] = st
+						}
+					}
+				}
+			}
+			s1, _, s2 := ag.shard(&kc, ev.meta, nil)
+			ev.tgt[ai] = [2]int{s1.ShardNum, -1}
+			if s2 != nil {
+				ev.tgt[ai][1] = s2.ShardNum
+			}
+			ev.pre[ai] = h.states(ai)
+			switch ev.kind {
+			case 3:
+				ag.AddCounter(ev.ts, ev.meta, tags, cnt)
+			case 4:
+				ag.AddValueCounter(ev.ts, ev.meta, tags, float64(ev.idx%5), cnt)
+			case 5:
+				iv := data_model.SimpleItemCounter(cnt, data_model.TagUnion{})
+				if ev.idx%2 == 0 {
+					iv = data_model.SimpleItemValue(float64(ev.idx%9), cnt, data_model.TagUnion{})
+				}
+				ag.MergeItemValue(ev.ts, ev.meta, tags, &iv)
+			default:
+				ag.AddCounterS(ev.ts, ev.meta, tags, stags, cnt)
+			}
+			continue
+		}
 		tags := []tl.DictFieldStringStringBytes{
 			{Key: []byte("gid"), Value: []byte(strconv.Itoa(int(ev.group)))},
 		}
@@ -384,7 +440,7 @@ func (h *c08History) send(ev *c08Event) {
 		hd.ReceiveTime = h.clock
 		if m.Ts != 0 {
 			hd.Key.Timestamp = m.Ts
-		} else {
+		} else if !ev.nowTs {
 			hd.Key.Timestamp = uint32(h.clock.Unix())
 		}
 		hd.MetricMeta = ev.meta
@@ -438,7 +494,7 @@ func (h *c08History) flush(consumer int) {
 func TestVerifC08(t *testing.T) {
 	r := verifkit.Start(t, "C08", "agent")
 	defer r.Finish()
-	r.SetRule("one case = one history: 2 agents (mapping cache full vs empty/partial, tag order and tag names differ) x 1-3 shards, 60-400 steps of {event, flush iteration with clock step 0..400 s, consumer step}, 10 metrics (resolutions 1,2,5,10,15,30,60; fixed/by-metric/by-tags-hash sharding; two with a secondary shard starting mid-history), shutdown + full flush at the end; every 5th history starts with 1-4 systematic consumer stalls of 0..12 s (flusher ticking each second, events of mostly low-resolution metrics with future and resolution-aligned timestamps arriving during the stall, a multiple of 60 placed inside the stall). Non-trivial = the history delivered >= 10 events and contained a late event, a low-resolution event and (a clock jump > 125 s or a receive-queue gap or a stalled consumer); distinct = distinct operation log.")
+	r.SetRule("one case = one history: 2 agents (mapping cache full vs empty/partial, tag order and tag names differ) x 1-3 shards, 60-400 steps of {event, flush iteration with clock step 0..400 s, consumer step}, 10 metrics (resolutions 1,2,5,10,15,30,60; fixed/by-metric/by-tags-hash sharding; three with a secondary shard whose start is long ago / mid-history / in the future; 1/4 of the events go through the direct helpers AddCounter, AddValueCounter, MergeItemValue, AddCounterS; events and the accompanying status events also arrive with timestamp 0 = now), shutdown + full flush at the end; every 5th history starts with 1-4 systematic consumer stalls of 0..12 s (flusher ticking each second, events of mostly low-resolution metrics with future and resolution-aligned timestamps arriving during the stall, a multiple of 60 placed inside the stall). Non-trivial = the history delivered >= 10 events and contained a late event, a low-resolution event and (a clock jump > 125 s or a receive-queue gap or a stalled consumer); distinct = distinct operation log.")
 	if c08RingSlack != 5 {
 		r.Assume(fmt.Sprintf("ring slack derived from the package constants is %d (5 at the pinned commit)", c08RingSlack))
 	}
@@ -502,7 +558,7 @@ func c08RunHistory(r *verifkit.Run, w *verifkit.Worker, idx int) {
 		}
 		switch op := rnd.IntN(10); {
 		case op < 6: // event
-			ev := &c08Event{idx: len(h.events), meta: h.metas[rnd.IntN(len(h.metas))], kind: rnd.IntN(3), clockMs: h.clock.UnixMilli()}
+			ev := &c08Event{idx: len(h.events), meta: h.metas[rnd.IntN(len(h.metas))], kind: c08Kind(rnd), nowTs: rnd.IntN(2) == 0, clockMs: h.clock.UnixMilli()}
 			now := uint32(h.clock.Unix())
 			switch rnd.IntN(11) {
 			case 0:
@@ -597,6 +653,13 @@ func c08RunHistory(r *verifkit.Run, w *verifkit.Worker, idx int) {
 	c08Judge(h, idx)
 }
 
+func c08Kind(rnd interface{ IntN(int) int }) int {
+	if rnd.IntN(4) == 0 {
+		return 3 + rnd.IntN(4)
+	}
+	return rnd.IntN(3)
+}
+
 func c08Clamp(ts uint32, clockUnix uint32, cur uint32) uint32 {
 	if ts == 0 {
 		ts = clockUnix // what the receiver (cmd/statshouse worker) puts in for events without a timestamp
@@ -642,7 +705,11 @@ func c08Judge(h *c08History, idx int) {
 					continue
 				}
 				pre := ev.pre[ai][shard]
-				cl := c08Clamp(ev.ts, clockUnix, pre.cur)
+				base := clockUnix
+				if ev.kind >= 3 || ev.nowTs {
+					base = pre.cur // no explicit timestamp = stamped with the agent's current time
+				}
+				cl := c08Clamp(ev.ts, base, pre.cur)
 				rounded := cl / res * res
 				gap := int64(pre.cur)-int64(pre.send) > c08RingSlack
 				if gap {
@@ -718,6 +785,44 @@ func c08Judge(h *c08History, idx int) {
 					late++
 					w.Count("events.late", 1)
 				}
+			}
+		}
+	}
+	// "ingestion status ok" events (timestamp 0 = now) that ApplyMetric adds on the primary and the secondary shard
+	for ai := 0; ai < 2; ai++ {
+		must, may := map[[2]int]float64{}, map[[2]int]float64{}
+		for _, ev := range h.events {
+			if ev.kind >= 3 {
+				continue
+			}
+			for which := 0; which < 2; which++ {
+				shard := ev.tgt[ai][which]
+				if shard < 0 {
+					continue
+				}
+				pre := ev.pre[ai][shard]
+				k := [2]int{shard, int(ev.meta.MetricID)}
+				gap := int64(pre.cur)-int64(pre.send) > c08RingSlack
+				if gap || pre.stopped || which == 1 && pre.cur < ev.meta.ShardFixedKey2Timestamp {
+					may[k]++
+				} else {
+					must[k]++
+				}
+			}
+		}
+		for k, mu := range must {
+			got := h.ag[ai].statusOK[k]
+			meta := h.metas[k[1]-100]
+			cls := "primary"
+			if meta.ShardFixedKey2 > 0 && int(meta.ShardFixedKey2)-1 == k[0] {
+				cls = "secondary"
+			}
+			w.Count("status_events.judged", int64(mu+may[k]))
+			if got < mu {
+				r.Violation("C08/lost/status-event-without-timestamp/"+cls, fmt.Sprintf("%v of %v accepted status events (timestamp 0 = now) of metric %d were never delivered on shard %d", mu-got, mu, k[1], k[0]),
+					wit(nil, ai, map[string]any{"shard": k[0], "metric": k[1], "shard2": meta.ShardFixedKey2, "shard2_timestamp": meta.ShardFixedKey2Timestamp, "t0": h.t0, "delivered": got, "must": mu, "may": may[k]}))
+			} else if got > mu+may[k] {
+				r.Violation("C08/duplicate/status-event-without-timestamp/"+cls, fmt.Sprintf("%v status events delivered, at most %v were sent", got, mu+may[k]), wit(nil, ai, map[string]any{"shard": k[0], "metric": k[1]}))
 			}
 		}
 	}
